@@ -191,6 +191,7 @@ namespace trompeloeil {
   noexcept
   {
     auto lock = get_lock();
+    TROMPELOEIL_VERIF_ACCESS(true, this, 0);
     for (const auto& matcher : matchers)
     {
       if (!matcher.is_satisfied())
@@ -219,6 +220,7 @@ namespace trompeloeil {
   noexcept
   {
     unsigned sequence_cost = 0U;
+    TROMPELOEIL_VERIF_ACCESS(true, this, 0);
     for (auto const& e : matchers)
     {
       if (&e == m) return sequence_cost;
@@ -237,6 +239,7 @@ namespace trompeloeil {
     sequence_matcher const* m)
   noexcept
   {
+    TROMPELOEIL_VERIF_ACCESS(true, this, 1);
     bool pending = false;
     for (auto const& e : matchers)
     {
